@@ -173,6 +173,18 @@ func (checker *TimestampChecker) OnError(t *ast.Task) error {
 	return nil
 }
 
+// OnStart drops the timestamp file: the task's commands are about to run, and
+// only their successful completion (OnSuccess) records a timestamp again.
+func (checker *TimestampChecker) OnStart(t *ast.Task) error {
+	if len(t.Sources) == 0 || checker.dry {
+		return nil
+	}
+	if err := os.Remove(checker.timestampFilePath(t)); err != nil && !os.IsNotExist(err) {
+		return err
+	}
+	return nil
+}
+
 // OnSuccess records the run: the timestamp stamped by the up-to-date check
 // becomes the task's timestamp file.
 func (checker *TimestampChecker) OnSuccess(t *ast.Task) error {
